@@ -893,11 +893,23 @@ impl ChessBoard {
 
             let pieces_mask =
                 self.get_piece_type_mask(piece_type) & self.get_color_mask(self.side_to_move);
-            if (piece_moves & pieces_mask).filter(between_filter).count() > 1 {
-                if (BitBoard::from_file(source.get_file()) & pieces_mask).count_ones() > 1 {
+            // other pieces of the same type which can legally move to the same square
+            let candidates: Vec<Square> = (piece_moves & pieces_mask)
+                .filter(between_filter)
+                .filter(|s| *s != source)
+                .filter(|s| {
+                    self.is_legal_move(&BoardMove::MovePiece(
+                        PieceMove::new(piece_type, *s, destination, None).unwrap(),
+                    ))
+                })
+                .collect();
+            if !candidates.is_empty() {
+                if candidates.iter().all(|s| s.get_file() != source.get_file()) {
+                    return Ok(ExtraFile);
+                } else if candidates.iter().all(|s| s.get_rank() != source.get_rank()) {
                     return Ok(ExtraRank);
                 } else {
-                    return Ok(ExtraFile);
+                    return Ok(ExtraSquare);
                 }
             }
         }
